@@ -63,6 +63,13 @@ func (r *zzRound) id(name string) uint32 {
 	return v
 }
 
+// a proposer id: one of the first P participants (the round has C+1 proposers)
+func (r *zzRound) prop(name string) uint32 {
+	v := zzsym.U32(name)
+	zzsym.Assume(zzA(v >= 1, v <= uint32(zzsym.Param("P"))))
+	return v
+}
+
 func (r *zzRound) sig() (byte, []byte) {
 	r.nextSg++
 	return r.nextSg, []byte{r.nextSg}
@@ -77,7 +84,7 @@ func (r *zzRound) block(proposer uint32, sg, esg []byte) *Block {
 }
 
 func (r *zzRound) sendProposal() {
-	p := r.id("proposal.proposer")
+	p := r.prop("proposal.proposer")
 	tag, sg := r.sig()
 	_, esg := r.sig()
 	r.facts = append(r.facts, zzFact{who: p, proposer: p, sig: tag})
@@ -86,7 +93,7 @@ func (r *zzRound) sendProposal() {
 }
 
 func (r *zzRound) sendEndorse() {
-	e, p, empty := r.id("endorse.endorser"), r.id("endorse.proposer"), zzsym.Bool("endorse.empty")
+	e, p, empty := r.id("endorse.endorser"), r.prop("endorse.proposer"), zzsym.Bool("endorse.empty")
 	tag, sg := r.sig()
 	r.facts = append(r.facts, zzFact{who: e, proposer: p, empty: empty, sig: tag})
 	err := r.pool.newBlockEndorsement(&blockEndorseMsg{Endorser: e, EndorsedProposer: p, BlockNum: zzBlk, EndorseForEmpty: empty, EndorserSig: sg})
@@ -95,7 +102,7 @@ func (r *zzRound) sendEndorse() {
 }
 
 func (r *zzRound) sendCommit(maxEndorsers int) {
-	cm, p, empty := r.id("commit.committer"), r.id("commit.proposer"), zzsym.Bool("commit.empty")
+	cm, p, empty := r.id("commit.committer"), r.prop("commit.proposer"), zzsym.Bool("commit.empty")
 	tag, sg := r.sig()
 	msg := &blockCommitMsg{Committer: cm, BlockProposer: p, BlockNum: zzBlk, CommitForEmpty: empty, CommitterSig: sg, EndorsersSig: map[uint32][]byte{}}
 	msg.CommitBlockHash[0] = zzsym.U8("commit.hash")
@@ -144,9 +151,14 @@ func (r *zzRound) atLeast(k uint32, sel zzSel) bool {
 	return r.distinct(int(k), ok)
 }
 
+// M messages; kinds: 1 = endorsements only, 2 = endorsements and proposals, 3 = all three, 4 = commit messages only
 func (r *zzRound) messages(M int, kinds int, maxEndorsers int) {
 	for m := 0; m < M; m++ {
-		switch zzsym.Choose("kind", kinds) {
+		k := 2
+		if kinds != 4 {
+			k = zzsym.Choose("kind", kinds)
+		}
+		switch k {
 		case 0:
 			r.sendEndorse()
 		case 1:
@@ -277,7 +289,7 @@ func (r *zzRound) participantOf(k keypair.PublicKey) uint32 {
 func ZZ_C41_SealSignatures() {
 	r := zzNewRound()
 	r.messages(zzsym.Param("M"), zzsym.Param("KINDS"), zzsym.Param("E"))
-	p := r.id("seal.proposer")
+	p := r.prop("seal.proposer")
 	forEmpty := zzsym.Bool("seal.empty")
 	blk := r.block(p, []byte{0xF0}, []byte{0xF1})
 	err := r.pool.addSignaturesToBlockLocked(blk, forEmpty)
